@@ -41,6 +41,11 @@ let handle cmd args : string option =
           let ((r0, r1), r2) = o.g_rot in " " ^ v3s r0 ^ " " ^ v3s r1 ^ " " ^ v3s r2 ^ " " ^ v3s o.g_tran) ops))
       | _ -> None)
   | "brick" -> None
+  | "bend" -> (match ints w with
+      (* AsuBrick(a, b, c).uvw_end for a grid nu x nv x nw *)
+      | [a; b; c; nu; nv; nw] ->
+        Some (Printf.sprintf "%d %d %d" (iz (uvw_end1 (zi a) (zi nu))) (iz (uvw_end1 (zi b) (zi nv))) (iz (uvw_end1 (zi c) (zi nw))))
+      | _ -> None)
   | "asumask" -> (match ints w with
       | [r; a; b; c; eu; ev; ew] ->
         Some (res_s (fun l -> hash_list (List.map iz l) 0)
